@@ -108,6 +108,12 @@ def entries():
     E["doc.get_formated_meta"] = lambda d, i=0: d.get_formated_meta()
     E["doc.get_parts"] = lambda d, i=0: sorted(d.get_parts())
     E["doc.get_part(binary)"] = lambda d, i=0: [d.get_part(n) for n in sorted(d.get_parts()) if n.startswith(("Pictures/", "Thumbnails/"))][:2]
+    E["doc.get_part(xml spellings)"] = lambda d, i=0: [len(d.get_part(n).serialize()) for n in
+                                                        ("./content.xml", "content.xml", "content", "./styles.xml", "styles", "./meta.xml", "meta.xml",
+                                                         "./settings.xml", "settings", "./META-INF/manifest.xml", "manifest")[i % 4::4]]
+    E["doc.get_part(sub-documents)"] = lambda d, i=0: [len(d.get_part(n).serialize()) for n in sorted(d.get_parts())
+                                                        if n.count("/") == 1 and n.endswith((".xml",)) and not n.startswith("META-INF")][:4]
+    E["doc.get_style_properties"] = lambda d, i=0: (d.get_style_properties("paragraph", "Standard"), d.get_style_properties("paragraph", "Standard", "text"))
     E["doc.get_type"] = lambda d, i=0: (d.get_type(), d.mimetype)
     E["doc.get_table_displayed"] = lambda d, i=0: [d.get_table_displayed(t.name) for t in d.body.get_tables()[:2]] if d.get_type() == "spreadsheet" else None
     E["doc.get_cell_style_properties"] = lambda d, i=0: d.get_cell_style_properties(0, (0, 0)) if d.body.get_tables() else None
